@@ -1,6 +1,8 @@
 """C12 - column expressions mean the same thing in every engine."""
 from __future__ import annotations
 
+import random
+
 import itertools
 
 from .. import exprs, interp
@@ -23,7 +25,8 @@ RULE = (
     "operator-shape strings."
     "  Range literals are built through the factory and through the public dataclass constructor (both routes in "
     "the exhaustive grid).  Predicates are also converted through sql.Engine.convert_flattened_predicate (the list of "
-    "terms the engine itself puts into WHERE / ON clauses); the AND of the terms must agree as well. "
+    "terms the engine itself puts into WHERE / ON clauses); the AND of the terms must agree as well.  Worker 0 also runs scale probes: AND / OR of 501, 700 and 900 comparisons (SQLite refuses expression trees deeper than 1000) and "
+    "membership in sequences of 1001, 2047 and 3001 literals (the deciding operand / item is among the last ones). "
 )
 ASSUMPTIONS = [
     "SQLite 3 integer semantics stand in for 'a database' (64-bit integers; % is a remainder)",
@@ -300,6 +303,28 @@ def run_shard(seed, wid, nworkers, tier):
                         out["counters"][key] = out["counters"].get(key, 0) + v
                     out["violations"].extend(dict(v, case={"kind": "pred", "ast": ast, "k": 1, "probe": True}) for v in sub["violations"])
                 out["sigs"].append(f"range:{'neg' if step < 0 else 'pos'}:{abs(step)}:{'empty' if len(range(start, stop, step)) == 0 else 'nonempty'}:{'negstart' if start < 0 else 'posstart'}")
+    # ---- scale probes: predicates far larger than anything the random generator builds (code that
+    # batches or nests long operand / item lists never shows on three operands)
+    rr = random.Random(f"{seed}:scale")
+    for size in (501, 700, 900):  # SQLite refuses expression trees deeper than 1000
+        for k in ("or", "and"):
+            # all operands but the last three compare with values outside the probe rows, so the
+            # result is decided by the last ones alone
+            cmp_ = "ne" if k == "and" else "eq"
+            ops = [["cmp", cmp_, ["ref", "a"], ["lit", 1000 + i]] for i in range(size - 3)]
+            ops += [["cmp", cmp_, ["ref", "a"], ["lit", rr.randint(-12, 12)]] for _ in range(3)]
+            ast = [k, ops, rr.choice(["ctor", "factory"])]
+            sub = {"counters": {}, "violations": []}
+            compare("pred", ast, tags, rows, payload, sub, f"{k} of {size} comparisons")
+            out["counters"]["scale_probes"] = out["counters"].get("scale_probes", 0) + 1
+            out["violations"].extend(dict(v, case={"kind": "pred", "ast": ast, "k": 1, "probe": True}) for v in sub["violations"])
+    for size in (1001, 2047, 3001):
+        items = [["lit", 1000 + i] for i in range(size - 3)] + [["lit", rr.randint(-12, 12)] for _ in range(3)]  # the last items matter
+        ast = ["inseq", ["ref", "a"], items, rr.choice(["list", "tuple"])]
+        sub = {"counters": {}, "violations": []}
+        compare("pred", ast, tags, rows, payload, sub, f"membership in a sequence of {size} literals")
+        out["counters"]["scale_probes"] = out["counters"].get("scale_probes", 0) + 1
+        out["violations"].extend(dict(v, case={"kind": "pred", "ast": ast, "k": 1, "probe": True}) for v in sub["violations"])
     out["evaluations"] = n
     out["counters"]["range_grid_enumerated"] = n
     out["extra"] = {"range_grid_exhaustive": True, "range_grid_size": n, "range_probe_values": len(rows)}
